@@ -482,15 +482,25 @@ func (cs *Contracts) loadFile(path string) error {
 			}
 		case "uses":
 			// uses entryclosure, blockframe: opt-in facts assumed while verifying THIS function (see ext_crypto.go)
-			if cur != nil {
-				if cur.Uses == nil {
-					cur.Uses = map[string]bool{}
-				}
-				for _, f := range strings.FieldsFunc(rest, func(r rune) bool { return r == ',' || r == ' ' }) {
-					if f != "entryclosure" && f != "blockframe" && f != "readsframe" {
-						return fail(fmt.Errorf("uses: unknown fact %q (entryclosure, blockframe, readsframe)", f))
+			// uses L1, L2 (lemma names; on a lemma or a function): closures of lemmas proved in the same check (ext_induct.go).
+			// Both kinds may be mixed in one clause: fact names are taken here, every other name is a lemma name.
+			var lemmaNames []string
+			for _, f := range strings.FieldsFunc(rest, func(r rune) bool { return r == ',' || r == ' ' || r == '\t' }) {
+				if f == "entryclosure" || f == "blockframe" || f == "readsframe" {
+					if cur == nil {
+						return fail(fmt.Errorf("uses %s outside func", f))
+					}
+					if cur.Uses == nil {
+						cur.Uses = map[string]bool{}
 					}
 					cur.Uses[f] = true
+					continue
+				}
+				lemmaNames = append(lemmaNames, f)
+			}
+			if len(lemmaNames) > 0 {
+				if _, err := extClause("uses", strings.Join(lemmaNames, ", "), pkg, cur, curLemma); err != nil {
+					return fail(err)
 				}
 			}
 		case "mode":
@@ -578,6 +588,12 @@ func (cs *Contracts) loadFile(path string) error {
 				cur.Props = append(cur.Props, ps...)
 			}
 		default:
+			if ok, err := extClause(word, rest, pkg, cur, curLemma); ok { // ext_induct.go: induct, uses, pattern, recframe
+				if err != nil {
+					return fail(err)
+				}
+				continue
+			}
 			return fail(fmt.Errorf("unknown clause %q", word))
 		}
 	}
